@@ -53,7 +53,17 @@ func shellRoles(c *Ctx, m *shellModel) bool {
 		return false
 	}
 	found := false
+	var scan func(in ssa.Instruction)
+	defer func() {}()
+	hosts := []*ssa.Function{nextFn}
 	allInstrs(nextFn, func(in ssa.Instruction) {
+		if call, ok := in.(*ssa.Call); ok {
+			if cal := staticCallee(&call.Call); cal != nil && origin(cal).Blocks != nil && len(call.Call.Args) > 0 && call.Call.Args[0] == ssa.Value(nextFn.Params[0]) {
+				hosts = append(hosts, origin(cal))
+			}
+		}
+	})
+	scan = func(in ssa.Instruction) {
 		ld, ok := in.(*ssa.UnOp)
 		if !ok || ld.Op != token.MUL || found {
 			return
@@ -124,7 +134,10 @@ func shellRoles(c *Ctx, m *shellModel) bool {
 		}
 		m.tableVar, m.classVar, m.stF, m.stateT, m.classT, m.actionT = g.Name(), g2.Name(), sf, st, ct, at
 		found = true
-	})
+	}
+	for _, h := range hosts {
+		allInstrs(h, scan)
+	}
 	if !found {
 		c.undecided("ANCHOR", "shell.(*Scanner).Next:lookup", nextFn.Pos(), "no lookup of the form table[s.state][classTable[byte]] with a {state, action} entry was found")
 	}
@@ -575,7 +588,23 @@ func runC16(c *Ctx) {
 				}
 			}
 			// non-constant: must be the entry's state inside Next (checked by R-FST-INTERP)
+			isStep := false
 			if origin(fn) != nextFn {
+				// … or inside the per-byte step method Next delegates to (a method on the same scanner that
+				// Next calls and that indexes the transition table)
+				allInstrs(nextFn, func(in2 ssa.Instruction) {
+					if call, ok := in2.(*ssa.Call); ok && origin(staticCallee(&call.Call)) == origin(fn) && len(call.Call.Args) > 0 && call.Call.Args[0] == ssa.Value(nextFn.Params[0]) {
+						allInstrs(origin(fn), func(in3 ssa.Instruction) {
+							if ia, ok := in3.(*ssa.IndexAddr); ok {
+								if g, ok := ia.X.(*ssa.Global); ok && g.Name() == m.tableVar {
+									isStep = true
+								}
+							}
+						})
+					}
+				})
+			}
+			if origin(fn) != nextFn && !isStep {
 				c.undecided("R-FST-TOTAL", key, in.Pos(), "non-constant state stored outside Next")
 			}
 		})
@@ -1055,9 +1084,91 @@ func checkInterp(c *Ctx, m *shellModel, nextFn *ssa.Function, stF, errF, bufF, c
 	})
 	c.judge(resetOK, "R-FST-INTERP", key+":cur-reset", nextFn.Pos(), "token buffer reset before the scanning loop", "token buffer is not reset at the start of Next: tokens would run together")
 
-	// the entry load: update[load st][classOf[c]]
+	// the entry load: update[load st][classOf[c]] — in Next itself, or in a per-byte step method of the scanner
+	// that Next hands the byte to (s.step(c)); the step's boolean result then stands for "return true" /
+	// "continue" as Next uses it
+	host := nextFn
+	hostByte := cbyte
+	retMap := map[bool]string{}
+	findEntry := func(fn *ssa.Function) *ssa.UnOp {
+		var found *ssa.UnOp
+		allInstrs(fn, func(in ssa.Instruction) {
+			ld, ok := in.(*ssa.UnOp)
+			if !ok || ld.Op != token.MUL {
+				return
+			}
+			ia, ok := ld.X.(*ssa.IndexAddr)
+			if !ok {
+				return
+			}
+			row, ok := ia.X.(*ssa.UnOp)
+			if !ok || row.Op != token.MUL {
+				return
+			}
+			ria, ok := row.X.(*ssa.IndexAddr)
+			if !ok {
+				return
+			}
+			g, ok := ria.X.(*ssa.Global)
+			if !ok || g.Name() != m.tableVar {
+				return
+			}
+			found = ld
+		})
+		return found
+	}
+	if findEntry(nextFn) == nil {
+		allInstrs(nextFn, func(in ssa.Instruction) {
+			call, ok := in.(*ssa.Call)
+			if !ok || host != nextFn {
+				return
+			}
+			cal := staticCallee(&call.Call)
+			if cal == nil || origin(cal).Blocks == nil || len(call.Call.Args) < 2 || call.Call.Args[0] != ssa.Value(nextFn.Params[0]) {
+				return
+			}
+			bi := -1
+			for i, a := range call.Call.Args {
+				if a == cbyte {
+					bi = i
+				}
+			}
+			if bi < 0 || findEntry(origin(cal)) == nil {
+				return
+			}
+			// how Next uses the step's answer
+			for _, r := range referrersOf(call) {
+				iff, ok := r.(*ssa.If)
+				if !ok {
+					continue
+				}
+				for si, sc := range iff.Block().Succs {
+					b := sc
+					for steps := 0; steps < 4 && b != nil; steps++ {
+						if b == loopHead {
+							retMap[si == 0] = "continue"
+							break
+						}
+						if ret, ok := b.Instrs[len(b.Instrs)-1].(*ssa.Return); ok && len(b.Instrs) == 1 && len(ret.Results) == 1 {
+							if cst, ok := ret.Results[0].(*ssa.Const); ok && cst.Value != nil {
+								retMap[si == 0] = "return " + cst.Value.String()
+							}
+							break
+						}
+						if len(b.Succs) != 1 || len(b.Instrs) != 1 {
+							break
+						}
+						b = b.Succs[0]
+					}
+				}
+			}
+			if len(retMap) == 2 {
+				host, hostByte = origin(cal), origin(cal).Params[bi]
+			}
+		})
+	}
 	var entryLoad *ssa.UnOp
-	allInstrs(nextFn, func(in ssa.Instruction) {
+	allInstrs(host, func(in ssa.Instruction) {
 		ld, ok := in.(*ssa.UnOp)
 		if !ok || ld.Op != token.MUL {
 			return
@@ -1100,7 +1211,7 @@ func checkInterp(c *Ctx, m *shellModel, nextFn *ssa.Function, stF, errF, bufF, c
 				lookupOK = false
 				why = append(why, "column index is not classOf[..]")
 			}
-			if cia.Index != cbyte {
+			if cia.Index != hostByte {
 				lookupOK = false
 				why = append(why, "classOf is not indexed by the byte just read")
 			}
@@ -1162,7 +1273,12 @@ func checkInterp(c *Ctx, m *shellModel, nextFn *ssa.Function, stF, errF, bufF, c
 	}
 	// s.st = entry.state, exactly one non-constant store to st in Next
 	nStore, stOK := 0, false
-	allInstrs(nextFn, func(in ssa.Instruction) {
+	stHosts := []*ssa.Function{nextFn}
+	if host != nextFn {
+		stHosts = append(stHosts, host)
+	}
+	for _, stHost := range stHosts {
+	allInstrs(stHost, func(in ssa.Instruction) {
 		if s, ok := in.(*ssa.Store); ok {
 			if fa, ok := s.Addr.(*ssa.FieldAddr); ok {
 				if _, f := fieldVarOf(fa); sameField(f, stF) {
@@ -1174,6 +1290,7 @@ func checkInterp(c *Ctx, m *shellModel, nextFn *ssa.Function, stF, errF, bufF, c
 			}
 		}
 	})
+	}
 	c.judge(nStore == 1 && stOK, "R-FST-INTERP", key+":state-update", entryLoad.Pos(), "s.st = entry.state, the only store to st in Next", fmt.Sprintf("%d stores to st in Next; the entry's state is assigned: %v", nStore, stOK))
 	if !(nStore == 1 && stOK) {
 		return res
@@ -1181,7 +1298,7 @@ func checkInterp(c *Ctx, m *shellModel, nextFn *ssa.Function, stF, errF, bufF, c
 	// action arms
 	arms := map[int64]*ssa.BasicBlock{}
 	var fallthroughBlk *ssa.BasicBlock
-	allInstrs(nextFn, func(in ssa.Instruction) {
+	allInstrs(host, func(in ssa.Instruction) {
 		iff, ok := in.(*ssa.If)
 		if !ok {
 			return
@@ -1217,7 +1334,7 @@ func checkInterp(c *Ctx, m *shellModel, nextFn *ssa.Function, stF, errF, bufF, c
 		steps := 0
 		for end == "" {
 			steps++
-			if b == loopHead {
+			if host == nextFn && b == loopHead {
 				end = "continue"
 				break
 			}
@@ -1228,7 +1345,7 @@ func checkInterp(c *Ctx, m *shellModel, nextFn *ssa.Function, stF, errF, bufF, c
 			for _, in := range b.Instrs {
 				switch x := in.(type) {
 				case *ssa.Call:
-					if seq, ok := bufWriteSeq(x, curF, cbyte); ok {
+					if seq, ok := bufWriteSeq(x, curF, hostByte); ok {
 						writes = append(writes, seq...)
 					} else if _, isB := x.Call.Value.(*ssa.Builtin); !isB {
 						writes = append(writes, "?call "+x.String())
@@ -1236,7 +1353,7 @@ func checkInterp(c *Ctx, m *shellModel, nextFn *ssa.Function, stF, errF, bufF, c
 				case *ssa.Store:
 					if _, ok := x.Addr.(*ssa.IndexAddr); !ok {
 						if _, ok := x.Addr.(*ssa.Alloc); !ok {
-							if seq, ok := sliceAppendSeq(x, curF, cbyte); ok {
+							if seq, ok := sliceAppendSeq(x, curF, hostByte); ok {
 								writes = append(writes, seq...)
 							} else {
 								writes = append(writes, "?store")
@@ -1247,6 +1364,10 @@ func checkInterp(c *Ctx, m *shellModel, nextFn *ssa.Function, stF, errF, bufF, c
 					if len(x.Results) == 1 {
 						if cst, ok := x.Results[0].(*ssa.Const); ok && cst.Value != nil {
 							end = "return " + cst.Value.String()
+							if host != nextFn {
+								// the step's answer, as Next uses it
+								end = retMap[cst.Value.String() == "true"]
+							}
 						} else {
 							end = "return ?"
 						}
